@@ -45,6 +45,7 @@ func genConsts() {
 	c("callbackWorkerQueue", "internal/chain/beacon", "CallbackWorkerQueue")
 	c("partialCacheStoreLimit", "internal/chain/beacon", "partialCacheStoreLimit")
 	c("syncExpiryFactor", "internal/chain/beacon", "syncExpiryFactor")
+	c("syncQueueRequest", "internal/chain/beacon", "syncQueueRequest")
 	c("tickerChanBacklog", "internal/chain/beacon", "tickerChanBacklog")
 	c("rwFilePermission", "internal/fs", "rwFilePermission")
 	c("dkgBoltStoreOpenPerm", "internal/dkg", "BoltStoreOpenPerm")
